@@ -1,13 +1,13 @@
 CONSTANTS
-  N = 4
-  NT = 3
+  N = 2
+  NT = 2
   MaxFaults = 1
-  MaxRogue = 0
+  MaxRogue = 1
   FixUnknown = TRUE
   CtxWriteCloses = FALSE
-  OfferWatchesClosed = TRUE
-SPECIFICATION Spec
+  OfferWatchesClosed = FALSE
+SPECIFICATION FairSpec
 INVARIANTS TypeOK NoSelfClose ClosedOnlyAfterFault OwnReply TagsDistinct NeverNotag NeverCrashes OkHasReply
-
+PROPERTIES AllReturnAfterDown
 VIEW View
 CHECK_DEADLOCK FALSE
